@@ -112,6 +112,16 @@ func secs(d time.Duration) int { return int(d / time.Millisecond) }
 func bandCfgEvent(name band.Name, rep bool, dwell int) (M, error) {
 	ev := M{"ev": "bandcfg", "name": string(name), "repeater": rep, "dwell": dwell}
 	var b band.Band
+	// the other configurations of the same band are asked for first (and dropped): what one call of GetConfig built must
+	// not be what a later call with other arguments hands out
+	for _, r := range []bool{rep, !rep} {
+		for dw := 0; dw < 2; dw++ {
+			if r != rep || dw != dwell {
+				rr, dd := r, dw
+				observeFast(func() error { _, err := band.GetConfig(name, rr, lorawan.DwellTime(dd)); return err })
+			}
+		}
+	}
 	res, _ := observeFast(func() error {
 		var err error
 		b, err = band.GetConfig(name, rep, lorawan.DwellTime(dwell))
@@ -121,6 +131,14 @@ func bandCfgEvent(name band.Name, rep bool, dwell int) (M, error) {
 	if res != "" {
 		return ev, nil
 	}
+	// a band object that was already used for read-only work (a planner call for a device that still holds channels the
+	// plan does not have, the CFList) answers every query below as a fresh one does
+	observeFast(func() error {
+		n := len(b.GetUplinkChannelIndices())
+		b.GetLinkADRReqPayloadsForEnabledUplinkChannelIndices([]int{0, n, n + 3, n + 7})
+		b.GetCFList("1.0.3")
+		return nil
+	})
 	ev["bname"] = b.Name()
 	snap, sd, err := snapVal(b)
 	if err != nil {
